@@ -1,6 +1,6 @@
 (* C14: sync_properties changes exactly the addressed property.  Statements only; lemmas in proofs/SyncPropsFacts.v,
    proofs/C14Facts.v. *)
-From Coq Require Import List.
+From Coq Require Import List ZArith.
 From Coq Require String.
 Import String.StringSyntax.
 From DT Require Import PyStr PyVal PyAst Locate SyncProps C15Spec C14Spec SyncPropsFacts C14Facts.
@@ -62,7 +62,7 @@ Theorem C14_default_written_to_wrong_argument :
                           | _ => []
                           end)
                 (written_tree (run_C14 (w_call w_in_ann [L "a"] w_out_method [L "C.m.a"] None)))
-     = Some [EConst (VInt 3)].
+     = Some [EConst (VInt 3%Z)].
 Proof. exact C14_refuted_default_slot. Qed.
 Print Assumptions C14_default_written_to_wrong_argument.
 
